@@ -22,6 +22,8 @@ pub enum KeyAlt {
   Degenerate,
   /// another key of the RSA pool
   RsaPool(u8),
+  /// v1.public: the signer's modulus with another public exponent (3, 65539, 2^24 + 65537, 2^32 + 65537, 2^32 + 1, 5 ...)
+  RsaExponent(u8),
   /// structured rearrangement of the key bytes: 0 swap two 8-byte groups, 1 reverse the 8-byte groups,
   /// 2 rotate by one byte, 3 reverse all bytes, 4 swap the halves
   Permute(u8, u8),
@@ -180,6 +182,27 @@ fn alt_public(p: Proto, seed: &[u8; 32], alt: &KeyAlt) -> Option<Vec<u8>> {
       k[0] = *b;
       k
     }
+    KeyAlt::RsaExponent(i) => {
+      if p != Proto::V1P {
+        return None;
+      }
+      // RSAPublicKey ::= SEQUENCE { modulus INTEGER, publicExponent INTEGER } - re-written with another exponent
+      const EXPONENTS: [&[u8]; 8] = [&[0x03], &[0x01, 0x00, 0x03], &[0x01, 0x01, 0x00, 0x01], &[0x01, 0x00, 0x01, 0x00, 0x01], &[0x01, 0x00, 0x00, 0x00, 0x01], &[0x05], &[0x00, 0x01, 0x00, 0x01], &[0x01, 0x00, 0x01, 0x00]];
+      let e = EXPONENTS[(*i as usize) % EXPONENTS.len()];
+      // the modulus TLV starts at offset 4 (30 82 LL LL | 02 82 01 01 00 <256 bytes>)
+      if pk.len() < 4 + 4 + 257 || pk[0] != 0x30 || pk[1] != 0x82 || pk[4] != 0x02 || pk[5] != 0x82 {
+        return None;
+      }
+      let nlen = ((pk[6] as usize) << 8) | pk[7] as usize;
+      let n_tlv = &pk[4..8 + nlen];
+      let mut body = n_tlv.to_vec();
+      body.push(0x02);
+      body.push(e.len() as u8);
+      body.extend_from_slice(e);
+      let mut k = vec![0x30, 0x82, (body.len() >> 8) as u8, body.len() as u8];
+      k.extend_from_slice(&body);
+      k
+    }
     KeyAlt::RsaPool(i) => {
       if p != Proto::V1P {
         return None;
@@ -236,6 +259,7 @@ impl Sub for KeyBinding {
       KeyAlt::Negate => "negated-point",
       KeyAlt::Degenerate => "degenerate",
       KeyAlt::RsaPool(_) => "rsa-pool",
+      KeyAlt::RsaExponent(_) => "rsa-same-modulus-other-exponent",
       KeyAlt::Permute(..) => "permuted-bytes",
       KeyAlt::FlipTwo(..) => "two-bit-flips",
       KeyAlt::HexSpelling(..) => "hex-spelled-keys",
@@ -516,6 +540,7 @@ fn alt_strategy(p: Proto) -> BoxedStrategy<KeyAlt> {
     (if p.is_local() { 0 } else { 1 }, Just(KeyAlt::Negate).boxed()),
     (if p.is_local() { 0 } else { 1 }, Just(KeyAlt::Degenerate).boxed()),
     (if p == Proto::V1P { 4 } else { 0 }, any::<u8>().prop_map(KeyAlt::RsaPool).boxed()),
+    (if p == Proto::V1P { 4 } else { 0 }, any::<u8>().prop_map(KeyAlt::RsaExponent).boxed()),
     (3, (0u8..5, any::<u8>()).prop_map(|(k, w)| KeyAlt::Permute(k, w)).boxed()),
     (3, (any::<u16>(), 0u8..5).prop_map(|(b, d)| KeyAlt::FlipTwo(b, d)).boxed()),
     (if p.is_local() || ed { 2 } else { 0 }, (0u8..3, any::<u8>()).prop_map(|(k, n)| KeyAlt::WrongLength(k, n)).boxed()),
@@ -600,6 +625,7 @@ pub fn run(ctx: &Ctx) -> EvidenceMeta {
           }
           for i in 0..keys::RSA_POOL.len() as u8 {
             cases.push(KeyCase { tok: spec.clone(), alt: KeyAlt::RsaPool(i) });
+            cases.push(KeyCase { tok: spec.clone(), alt: KeyAlt::RsaExponent(i) });
           }
         }
         ctx.enumerate(s, cases.into_iter(), false);
